@@ -9,6 +9,7 @@
         size, bucket count, hash-table->alist in its exact order and the lookup of every key vs the extracted table model
         (exact layout) and vs the extracted association-list map (the spec); (srfi 125) histories vs the spec map."""
 import os, struct, subprocess, json
+from fractions import Fraction
 from vlib import build as B, scm
 
 MAXFIX = (1 << 62) - 1
@@ -110,6 +111,16 @@ def mutate(v, rng):
     if t == "int":
         n = v[1]
         return ("int", rng.choice([n + 1, n - 1, -n if n else 1, n ^ (1 << rng.randrange(0, max(1, n.bit_length()))), n + (1 << 64), n << 64 if n else 5]))
+    if t == "rat":
+        f = Fraction(v[1], v[2])
+        g = rng.choice([f + 1, -f, 1 / f, Fraction(v[1] + 1, v[2]), Fraction(v[1], v[2] + 1), f + Fraction(1, 1 << 64)])
+        return mk_num(g) if g != f else ("int", 0)
+    if t == "cpx":
+        re, im = Fraction(*v[1]), Fraction(*v[2])
+        re2, im2 = rng.choice([(re + 1, im), (re, -im), (re, im + 1), (im, re), (re, 0), (-re, im) if re else (re + 1, im)])
+        if im2 == 0:
+            return mk_num(re2)
+        return ("cpx", (re2.numerator, re2.denominator), (im2.numerator, im2.denominator))
     if t == "flo":
         w = ("flo", v[1] ^ rng.choice([1, 1 << 63, 1 << 52]))
         return w if not has_nan(w) else ("flo", v[1] ^ (1 << 63))
@@ -192,15 +203,172 @@ def chr_expr(c):
     return "(integer->char %d)" % c
 
 
+
+# ---- exact ratios ('rat', p, q) (q > 1, lowest terms) and exact complex numbers ('cpx', (p, q), (p, q)) (imaginary part != 0):
+# only used where no object token is needed (value pairs, constructor histories)
+BIGS = [1 << 62, (1 << 62) + 1, (1 << 64) + 1, 3 ** 45, (1 << 100) - 1, 10 ** 25, (1 << 128)]
+
+
+def fr_str(f):
+    return str(Fraction(f))
+
+
+def mk_num(f):
+    f = Fraction(f)
+    return ("int", f.numerator) if f.denominator == 1 else ("rat", f.numerator, f.denominator)
+
+
+def gen_rat(rng):
+    while True:
+        q = rng.choice([2, 3, 7, 10, 360, (1 << 64) + 1, (1 << 70) + 1, 3 ** 45])
+        p = rng.choice([1, -1, 5, rng.randrange(-1000, 1000), rng.getrandbits(70) + 1, -(rng.getrandbits(130) + 1)])
+        f = Fraction(p, q)
+        if f.denominator != 1:
+            return ("rat", f.numerator, f.denominator)
+
+
+def gen_cpx(rng):
+    def part():
+        c = rng.random()
+        if c < 0.5:
+            return Fraction(rng.randrange(-9, 10))
+        if c < 0.75:
+            return Fraction(rng.choice(BIGS) * rng.choice([1, -1]))
+        g = gen_rat(rng)
+        return Fraction(g[1], g[2])
+    re, im = part(), part()
+    if im == 0:
+        im = Fraction(1)
+    return ("cpx", (re.numerator, re.denominator), (im.numerator, im.denominator))
+
+
+def cpx_str(re, im):
+    re, im = Fraction(re), Fraction(im)
+    if im == 0:
+        return fr_str(re)
+    return ("" if re == 0 else fr_str(re)) + ("+" if im > 0 else "-") + fr_str(abs(im)) + "i"
+
+
+def gen_number(rng):
+    c = rng.random()
+    if c < 0.35:
+        return gen_int(rng)
+    if c < 0.55:
+        return gen_flo(rng)
+    if c < 0.85:
+        return gen_rat(rng)
+    return gen_cpx(rng)
+
+
+def rat_expr(f, rng):
+    p, q = f.numerator, f.denominator
+    r = rng.random()
+    if r < 0.15:
+        return "%d/%d" % (p, q)
+    if r < 0.35:
+        k = rng.choice([2, 3, -5, 1 << 64, 10 ** 20])
+        return "(/ %d %d)" % (k * p, k * q)
+    if r < 0.55:
+        x = Fraction(rng.randrange(-50, 50), rng.choice([q, 2, 3, (1 << 65) + 1]))
+        return "(+ %s %s)" % (fr_str(x), fr_str(f - x))
+    if r < 0.7:
+        return "(* %d 1/%d)" % (p, q)
+    if r < 0.85:
+        x = Fraction(rng.choice(BIGS), rng.choice([1, 3, 7]))
+        return "(- %s %s)" % (fr_str(f + x), fr_str(x))
+    return '(string->number "%d/%d")' % (p, q)
+
+
+def cpx_expr(re, im, rng):
+    r = rng.random()
+    if r < 0.2:
+        return cpx_str(re, im)
+    if r < 0.4:
+        return "(make-rectangular %s %s)" % (fr_str(re), fr_str(im))
+    if r < 0.6:
+        return "(+ %s (* %s +i))" % (fr_str(re), fr_str(im))
+    if r < 0.8:
+        wr, wi = Fraction(rng.randrange(-5, 6)), Fraction(rng.choice([1, -2, rng.choice(BIGS)]))
+        return "(- (+ %s %s) %s)" % (cpx_str(re, im), cpx_str(wr, wi), cpx_str(wr, wi))
+    if r < 0.9:
+        return "(* %s 1)" % cpx_str(re, im)
+    return '(string->number "%s")' % cpx_str(re, im)
+
+
+def small_routes_all(n, rng):
+    """routes to the fixnum-range integer n whose LAST operation has a bignum / ratio / exact-complex operand: the result
+    must be the canonical fixnum whatever the route (zero, +-1, small, the +-2^62 boundary)"""
+    Bg = rng.choice(BIGS)
+    sg = 1 if n >= 0 else -1
+    q = rng.choice([1, 2, 5, Bg])
+    c = []
+    if n == 0:
+        c += ["(* 0 %d)" % Bg, "(* %d 0)" % Bg, "(* 0 %d)" % -Bg, "(* %d 0)" % -Bg, "(- %d %d)" % (Bg, Bg), "(+ %d %d)" % (Bg, -Bg),
+              "(remainder %d %d)" % (Bg * 3, Bg), "(modulo %d %d)" % (-Bg * 2, Bg), "(quotient %d %d)" % (Bg - 1, Bg),
+              "(- 1/%d 1/%d)" % (Bg, Bg), "(* 0 %d/3)" % (Bg * 3 + 1), "(* %d/3 0)" % (Bg * 3 + 1), "(lcm %d 0)" % Bg,
+              "(- %s %s)" % (cpx_str(Bg, 1), cpx_str(Bg, 1)), "(* 0 %s)" % cpx_str(Bg, 1), "(arithmetic-shift %d %d)" % (Bg, -200),
+              "(call-with-values (lambda () (exact-integer-sqrt %d)) (lambda (s r) r))" % (Bg * Bg),
+              "(imag-part (* %s 1))" % cpx_str(Bg, 1) if False else "(- (* %d 1) %d)" % (Bg, Bg)]
+    c += ["(quotient %d %d)" % (Bg * n + sg * rng.randrange(0, Bg), Bg),
+          "(+ %d %d)" % (Bg + n, -Bg), "(- %d %d)" % (n - Bg, -Bg), "(- %d %d)" % (Bg + n, Bg),
+          "(* %s %d)" % (fr_str(Fraction(n, Bg)), Bg), "(* %d %s)" % (Bg, fr_str(Fraction(n, Bg))),
+          "(- (+ %d 1/2) 1/2)" % n, "(+ %s %s)" % (fr_str(Fraction(2 * n - 1, 2)), "1/2"),
+          "(floor %d/2)" % (2 * n + 1), "(numerator (/ %d %d))" % (n * 3, 3) if n else "(numerator (/ 0 3))",
+          "(- %s %s)" % (cpx_str(n, 5), cpx_str(0, 5)), "(+ %s %s)" % (cpx_str(n - Bg, 1), cpx_str(Bg, -1)),
+          "(* -1 %d)" % -n, "(- %d)" % -n if n else "(- 0)"]
+    if n >= 0:
+        c += ["(remainder %d %d)" % (Bg * q + n, Bg), "(modulo %d %d)" % (Bg * rng.choice([1, -1, 7]) + n, Bg),
+              "(arithmetic-shift %d -70)" % ((n << 70) | rng.getrandbits(70))]
+        if n < Bg:
+            c += ["(call-with-values (lambda () (exact-integer-sqrt %d)) (lambda (s r) r))" % (Bg * Bg + n)] if n <= 2 * Bg else []
+    else:
+        c += ["(remainder %d %d)" % (-(Bg * q) + n, Bg), "(modulo %d %d)" % (-(Bg * 3) + n, -Bg)] if -n < Bg else []
+    if n != 0:
+        c += ["(/ %d %d)" % (Bg * n, Bg), "(/ %d %d)" % (-Bg * n, -Bg), "(* +i %s)" % cpx_str(0, -n)]
+    if n > 0:
+        c += ["(gcd %d %d)" % (n * Bg, n * (Bg + 1)), "(abs %d)" % -n]
+    if n == 1:
+        c += ["(expt %d 0)" % Bg, "(quotient %d %d)" % (Bg, Bg), "(/ %d %d)" % (Bg, Bg), "(* 1/%d %d)" % (Bg, Bg), "(expt 1/%d 0)" % Bg,
+              "(gcd %d %d)" % (Bg, Bg + 1), "(expt +i 4)", "(/ %s %s)" % (cpx_str(Bg, 1), cpx_str(Bg, 1)), "(denominator (/ %d 3))" % (Bg * 3)]
+    if n == -1:
+        c += ["(quotient %d %d)" % (Bg, -Bg), "(/ %d %d)" % (Bg, -Bg), "(* +i +i)", "(expt +i 2)"]
+    if n == 2:
+        c += ["(* %s %s)" % (cpx_str(1, 1), cpx_str(1, -1)), "(expt 1/2 -1)", "(gcd %d 6)" % (1 << 70)]
+    if abs(n) < (1 << 53):
+        c += ["(exact %d.)" % n, "(exact (truncate %d.5))" % n if n > 0 else "(exact %d.)" % n]
+    return c
+
+
+def small_routes(n, rng):
+    return rng.choice(small_routes_all(n, rng))
+
+
+def number_expr(v, rng, C):
+    if v[0] == "rat":
+        return rat_expr(Fraction(v[1], v[2]), rng)
+    if v[0] == "cpx":
+        return cpx_expr(Fraction(*v[1]), Fraction(*v[2]), rng)
+    return expr(v, rng, C)
+
+
 def expr(v, rng, C):
     """a Scheme expression computing v along a randomly chosen route"""
     t = v[0]
+    if t in ("rat", "cpx"):
+        return number_expr(v, rng, C)
     if t == "int":
         n = v[1]
         r = rng.random()
         if not is_fix(n):
-            if r < 0.25:
+            if r < 0.2:
                 return str(n)
+            if r < 0.25:     # sign change / product by a unit (fixnum x bignum), the +-2^62 boundary coming from a fixnum
+                c = ["(- %d)" % -n, "(* -1 %d)" % -n, "(* %d -1)" % -n, "(* 1 %d)" % n, "(abs %d)" % (-n if n > 0 else n) if n > 0 else "(- (abs %d))" % n]
+                if n == MAXFIX + 1:
+                    c += ["(+ %d 1)" % MAXFIX, "(abs %d)" % (-MAXFIX - 1), "(- %d)" % (-MAXFIX - 1), "(* 2 %d)" % (1 << 61), "(expt 2 62)", "(arithmetic-shift 1 62)"]
+                if n == -MAXFIX - 2:
+                    c += ["(- %d 1)" % (-MAXFIX - 1), "(- -1 %d)" % (MAXFIX + 1)]
+                return rng.choice(c)
             k = n.bit_length() + rng.choice([1, 64, 130, 200])
             if r < 0.5:      # leaves unused high words in the result
                 return "(- (expt 2 %d) (- (expt 2 %d) %d))" % (k, k, n)
@@ -216,11 +384,13 @@ def expr(v, rng, C):
                 return '(string->number "%d")' % n
             a = rng.randrange(0, abs(n))
             return "(+ %d %d)" % (a, n - a)
-        if r < 0.4:
+        if r < 0.3:
             return str(n)
-        if r < 0.6:
+        if r < 0.45:
             a = rng.randrange(-100, 100)
             return "(+ %d %d)" % (a, n - a)
+        if r < 0.6:
+            return small_routes(n, rng)
         if r < 0.8:
             k = rng.choice([62, 64, 70, 130])
             return "(- (+ %d (expt 2 %d)) (expt 2 %d))" % (n, k, k)
@@ -365,9 +535,20 @@ def token(v, C, rng=None):
     raise ValueError(v)
 
 
+def tokenable(v):
+    """the object model (and so the token language) has no ratios / complex numbers / heap symbols"""
+    if v[0] in ("sym", "rat", "cpx"):
+        return False
+    if v[0] == "pair":
+        return tokenable(v[1]) and tokenable(v[2])
+    if v[0] == "vec":
+        return all(tokenable(x) for x in v[1])
+    return True
+
+
 def eqv_spec(a, b):
     """R7RS eqv? for two SEPARATELY constructed values; None = unspecified"""
-    if a[0] in ("int", "flo", "char", "imm", "sym"):
+    if a[0] in ("int", "flo", "char", "imm", "sym", "rat", "cpx"):
         return a == b
     if a[0] != b[0]:
         return False
@@ -380,8 +561,12 @@ def eqv_spec(a, b):
 IMPORTS = """(import (srfi 69) (only (chibi io) utf8->string!) (rename (only (chibi) equal?) (equal? core-equal?))
         (only (chibi) slot-ref) (only (chibi ast) type-of) (only (srfi 151) arithmetic-shift)
         (prefix (only (srfi 125) make-hash-table hash-table-set! hash-table-delete! hash-table-ref/default hash-table-size
-                      hash-table->alist hash-table-copy hash-table-update!/default) h125:)
-        (only (srfi 128) make-equal-comparator make-eqv-comparator make-eq-comparator make-comparator)
+                      hash-table->alist hash-table-copy hash-table-update!/default
+                      alist->hash-table hash-table hash-table-unfold hash-table-empty-copy) h125:)
+        (only (srfi 128) make-equal-comparator make-eqv-comparator make-eq-comparator make-comparator
+              make-default-comparator default-comparator eq-comparator eqv-comparator equal-comparator
+              string-comparator string-ci-comparator char-comparator char-ci-comparator real-comparator
+              list-comparator vector-comparator make-pair-comparator)
         (prefix (only (srfi 128) string-hash) c128:))"""
 
 PRELUDE = r"""
@@ -439,6 +624,67 @@ PRELUDE = r"""
 (define c15-api125 (vector h125:hash-table-set! h125:hash-table-delete! h125:hash-table-ref/default h125:hash-table-size h125:hash-table->alist
                            (lambda (t) (h125:hash-table-copy t #t)) h125:hash-table-update!/default
                            (lambda (t) (h125:hash-table-copy t))))
+;; ---- round 3: results of arithmetic with a bignum / ratio / flonum / complex operand against the literal of the same value
+(define (c15-tab r lit t)
+  (hash-table-set! t lit 1) (hash-table-set! t r 2)
+  (c15-b (and (= (hash-table-size t) 1) (eqv? (hash-table-ref/default t lit #f) 2) (eqv? (hash-table-ref/default t r #f) 2))))
+(define (c15-tab125 r lit t)
+  (h125:hash-table-set! t lit 1) (h125:hash-table-set! t r 2)
+  (c15-b (and (= (h125:hash-table-size t) 1) (eqv? (h125:hash-table-ref/default t lit #f) 2) (eqv? (h125:hash-table-ref/default t r #f) 2))))
+(define (c15-num r lit)
+  (string-append
+   (c15-b (eqv? r lit)) (c15-b (eqv? lit r)) (c15-b (equal? r lit)) (c15-b (core-equal? r lit))
+   (c15-b (= (hash r) (hash lit))) (c15-b (eq? (fixnum? r) (fixnum? lit)))
+   (c15-b (and (memv r (list 'x lit)) #t)) (c15-b (and (assv r (list (cons 'x 0) (cons lit 1))) #t))
+   (c15-b (and (member r (list 'x lit)) #t)) (c15-b (= r lit))
+   (c15-tab r lit (make-hash-table eqv?)) (c15-tab r lit (make-hash-table equal?)) (c15-tab r lit (make-hash-table))
+   (c15-tab r lit (make-hash-table =))
+   (c15-tab125 r lit (h125:make-hash-table eqv?)) (c15-tab125 r lit (h125:make-hash-table (make-eqv-comparator)))
+   (c15-tab125 r lit (h125:make-hash-table (make-default-comparator))) (c15-tab125 r lit (h125:make-hash-table = hash))))
+;; ---- round 3: histories in which EVERY key is a freshly computed object (routes = vector, per key, of vectors of thunks)
+(define (c15-fill t-set! t al) (for-each (lambda (p) (t-set! t (car p) (cdr p))) al) t)
+(define (c15-flat al) (if (null? al) '() (cons (caar al) (cons (cdar al) (c15-flat (cdr al))))))
+(define (c15-fresh api mk routes init ops)
+  (let* ((n (vector-length routes)) (rc 0) (out (open-output-string)) (other #f)
+         (t-set! (vector-ref api 0)) (t-del! (vector-ref api 1)) (t-ref (vector-ref api 2)) (t-size (vector-ref api 3))
+         (t-alist (vector-ref api 4)) (t-copy (vector-ref api 5)) (t-upd (vector-ref api 6)) (t-copy-aside (vector-ref api 7)))
+    (define (key i)
+      (let ((rs (vector-ref routes i)))
+        (set! rc (+ rc 1))
+        ((vector-ref rs (modulo rc (vector-length rs))))))
+    (define ids (let ((v (make-vector n #f))) (do ((i 0 (+ i 1))) ((= i n) v) (vector-set! v i ((vector-ref (vector-ref routes i) 0))))))
+    (define (kidx k) (let lp ((i 0)) (cond ((= i n) -1) ((equal? (vector-ref ids i) k) i) (else (lp (+ i 1))))))
+    (define (dump1 ht)
+      (write-string (c15-hex (t-size ht)) out)
+      (write-string "/0/" out)
+      (let lp ((al (t-alist ht)) (first #t))
+        (cond ((pair? al)
+               (if (not first) (write-string "," out))
+               (write-string (number->string (kidx (caar al))) out) (write-string ":" out) (write-string (c15-hex (cdar al)) out)
+               (lp (cdr al) #f))))
+      (write-string "/" out)
+      (let lp ((i 0))
+        (cond ((< i n)
+               (if (> i 0) (write-string "," out))
+               (let ((v (t-ref ht (key i) #f)))
+                 (write-string (if v (c15-hex v) "-") out))
+               (lp (+ i 1))))))
+    (let ((ht (mk (map (lambda (p) (cons (key (car p)) (cdr p))) init))))
+      (let lp ((ops ops) (first? #t))
+        (cond ((pair? ops)
+               (let ((o (car ops)))
+                 (case (car o)
+                   ((s) (t-set! ht (key (cadr o)) (car (cddr o))))
+                   ((d) (t-del! ht (key (cadr o))))
+                   ((c) (set! other ht) (set! ht (t-copy ht)))
+                   ((k) (set! other (t-copy-aside ht)))
+                   ((x) (if other (let ((tmp ht)) (set! ht other) (set! other tmp))))
+                   ((u) (t-upd ht (key (cadr o)) (lambda (x) (+ x 1)) (car (cddr o))))))
+               (if (not first?) (write-string "|" out))
+               (dump1 ht)
+               (cond (other (write-string "&" out) (dump1 other)))
+               (lp (cdr ops) #f))))
+      (get-output-string out))))
 """
 
 KINDS = {
@@ -509,9 +755,14 @@ def run(ctx):
     corpus_first(ctx, d, exe, emb, C)
     outer_pairs(ctx, d, exe, C, 1000 if not T else 50000)
     outer_cycles(ctx, d, 60 if not T else 2000)
+    shared_strings(ctx, d, exe, C, 60 if not T else 1500)
+    arith_results(ctx, d, 1 if not T else 12)
     graphs(ctx, d, exe, C, *((2, 40, [20000]) if not T else (12, 1500, [10001, 20000, 50000])))
     t2 = time.time()
     histories(ctx, d, exe, C, (100, 8) if not T else (1100, 60))
+    t3 = time.time()
+    ctor_histories(ctx, d, exe, C, *((1, 0.6) if not T else (6, 1.0)))
+    ctx.note("wall: constructor histories %.0fs" % (time.time() - t3))
     ctx.note("wall: inner %.0fs, outer pairs+cycles %.0fs, histories %.0fs" % (t1 - t0, t2 - t1, time.time() - t2))
     for e in shape_errs:
         ctx.broken("source-shape", e)
@@ -584,8 +835,12 @@ def replay_scm(e):
     return scm.PRELUDE + IMPORTS + PRELUDE + "\n(write %s)(newline)" % e
 
 
-def pick_pair(rng, depth=3):
+def pick_pair(rng, depth=3, tower=False):
     v = gen_val(rng, depth)
+    if tower and rng.random() < 0.12:
+        v = rng.choice([gen_rat, gen_cpx])(rng)
+        if rng.random() < 0.3:
+            v = ("vec", (("int", 1), v)) if rng.random() < 0.5 else ("pair", v, ("imm", "()"))
     c = rng.random()
     if c < 0.5:
         return v, v, "same"
@@ -668,7 +923,7 @@ def outer_pairs(ctx, d, exe, C, n):
     rng = ctx.rng
     exprs, meta = [], []
     for _ in range(n):
-        a, b, cls = pick_pair(rng)
+        a, b, cls = pick_pair(rng, tower=True)
         exprs.append("(c15-pair %s %s)" % (expr(a, rng, C), expr(b, rng, C)))
         meta.append((a, b, cls))
     # heap symbols and +nan.0: only hash coherence / equal? are specified
@@ -680,8 +935,8 @@ def outer_pairs(ctx, d, exe, C, n):
     out = scm.run_cases(d, exprs, prelude_extra=PRELUDE, imports=IMPORTS)
     hreq = []
     for (a, b, cls) in meta:
-        hreq.append("hash %s %x" % (token(a, C) if a[0] != "sym" else "i0", MAXFIX))
-        hreq.append("hash %s %x" % (token(b, C) if b[0] != "sym" else "i0", MAXFIX))
+        hreq.append("hash %s %x" % (token(a, C) if tokenable(a) else "i0", MAXFIX))
+        hreq.append("hash %s %x" % (token(b, C) if tokenable(b) else "i0", MAXFIX))
     hm = ctx.run_model(exe, hreq)
     for k, ((a, b, cls), e, o) in enumerate(zip(meta, exprs, out)):
         nt = a[0] not in ("char", "imm") and not (a[0] == "int" and is_fix(a[1]))
@@ -720,7 +975,7 @@ def outer_pairs(ctx, d, exe, C, n):
                 if same and f[4] != f[5]:
                     ctx.violation("string-hash-respects-string=?", input=e, expected="equal string hashes", observed=o, replay=replay_scm(e))
                     continue
-            if typ != "sym" and (f[1] != hm[2 * k] or f[2] != hm[2 * k + 1]):
+            if tokenable(a) and tokenable(b) and (f[1] != hm[2 * k] or f[2] != hm[2 * k + 1]):
                 ctx.broken("correspondence:hash(outer)", "hash value differs from the model although coherent: %s impl=%s,%s model=%s,%s" % (e, f[1], f[2], hm[2 * k], hm[2 * k + 1]))
     ctx.sample(dict(kind="outer-pair", expr=exprs[0], impl=unquote(out[0]), model_hashes=hm[:2]))
     # the two findings of DESIGN.md section 6, verbatim
@@ -1163,6 +1418,347 @@ def replay_geq(e):
     return scm.PRELUDE + IMPORTS + GEQ_IMPORTS + PRELUDE + GEQ_PRELUDE + "\n(write %s)(newline)" % e
 
 
+
+# ------------------------------------------------------------------------------------------------ strings carved from ONE byte store
+SHARED_PRELUDE = r"""
+(define (c15-shared s1 s2)
+  (define (t69 t) (hash-table-set! t s1 1) (hash-table-set! t s2 2)
+    (string-append (number->string (hash-table-size t)) (number->string (hash-table-ref/default t s1 0)) (number->string (hash-table-ref/default t s2 0))))
+  (define (t125 t) (h125:hash-table-set! t s1 1) (h125:hash-table-set! t s2 2)
+    (string-append (number->string (h125:hash-table-size t)) (number->string (h125:hash-table-ref/default t s1 0)) (number->string (h125:hash-table-ref/default t s2 0))))
+  (string-append (t69 (make-hash-table)) (t69 (make-hash-table equal?)) (t69 (make-hash-table string=?)) (t69 (make-hash-table string=? string-hash))
+                 (t125 (h125:make-hash-table (make-equal-comparator))) (t125 (h125:make-hash-table string-comparator))
+                 (c15-b (and (member s2 (list s1)) #t)) (c15-b (and (assoc s2 (list (cons s1 1))) #t))))
+"""
+
+
+def shared_strings(ctx, d, exe, C, n):
+    """two strings of the same byte length carved with utf8->string! out of ONE bytevector at different offsets (the only way two
+    string objects share a byte store): equal contents / different contents, half of the different ones chosen so that both keys
+    hash into the same one of the 23 initial buckets (hash model).  equal?/eqv?/hash/string=?/string-hash + 6 two-key tables."""
+    rng = ctx.rng
+    stores = []
+    for _ in range(max(8, n // 4)):
+        size = rng.choice([4, 6, 12, 12])
+        alpha = rng.choice([b"ab", b"abc", b"abcdefgh", bytes([0x61, 0x62, 0xce, 0xbb])])
+        bs = bytes(rng.choice(alpha) for _ in range(size))
+        try:
+            bs.decode("utf-8")
+        except UnicodeDecodeError:
+            bs = bytes(rng.choice(b"abcd") for _ in range(size))
+        stores.append(bs)
+    cand, req = [], []
+    for bs in stores:
+        for L in (1, 2, 3):
+            for o in range(len(bs) - L + 1):
+                try:
+                    bs[o:o + L].decode("utf-8")
+                except UnicodeDecodeError:
+                    continue
+                cand.append((bs, L, o))
+                req.append("hash s0:%d:%s 17" % (L, bs[o:o + L].hex()))
+    hv = ctx.run_model(exe, req)
+    by = {}
+    for (bs, L, o), h in zip(cand, hv):
+        by.setdefault((bs, L), []).append((o, h))
+    collide, equal, other = [], [], []
+    for (bs, L), lst in by.items():
+        for i, (o1, h1) in enumerate(lst):
+            for (o2, h2) in lst[i + 1:]:
+                same = bs[o1:o1 + L] == bs[o2:o2 + L]
+                (equal if same else (collide if h1 == h2 else other)).append((bs, L, o1, o2, same))
+    pick = []
+    for lst, k in ((collide, n // 2), (equal, n // 4), (other, n - n // 2 - n // 4)):
+        rng.shuffle(lst)
+        pick += lst[:k]
+    exprs = []
+    for (bs, L, o1, o2, same) in pick:
+        if rng.random() < 0.5:
+            o1, o2 = o2, o1
+        exprs.append("(let* ((bv (bytevector %s)) (s1 (utf8->string! bv %d %d)) (s2 (utf8->string! bv %d %d))) (string-append (c15-pair s1 s2) \" \" (c15-shared s1 s2)))"
+                     % (" ".join(map(str, bs)), o1, o1 + L, o2, o2 + L))
+    out = [unquote(x) for x in scm.run_cases(d, exprs, prelude_extra=PRELUDE + SHARED_PRELUDE, imports=IMPORTS)]
+    for (bs, L, o1, o2, same), e, o in zip(pick, exprs, out):
+        ctx.count(1, key=e, nontrivial=True)
+        f = (o or "").split(" ")
+        rp = scm.PRELUDE + IMPORTS + PRELUDE + SHARED_PRELUDE + "\n(write %s)(newline)" % e
+        if o is None or o.startswith(("ERR", "CRASH", "TIMEOUT")) or len(f) != 9 or len(f[0]) != 7:
+            ctx.violation("pair:error:str:shared-store", input=e, expected="answers", observed=o, replay=rp)
+            continue
+        b = "1" if same else "0"
+        if f[0][0] != b or f[0][3] != b or f[0][1] != b or f[0][5] != "1":
+            ctx.violation("equal?:str:shared-store:%s" % ("false-negative" if same else "false-positive"), input=e,
+                          expected="equal? = core equal? = %s in both orders for two strings inside one byte store at different offsets" % same, observed=o, replay=rp)
+        elif f[3] != b:
+            ctx.violation("string=?:shared-store", input=e, expected=b, observed=o, replay=rp)
+        elif same and (f[1] != f[2] or f[4] != f[5]):
+            ctx.violation("hash-respects-equal:str:shared-store", input=e, expected="equal hash and string-hash", observed=o, replay=rp)
+        elif f[8] != ("122" * 6 if same else "212" * 6) + b + b:
+            ctx.violation("table:shared-store-string-keys", input=e, expected=("122" * 6 if same else "212" * 6) + b + b + " (size, ref s1, ref s2 of six two-key tables; member; assoc)",
+                          observed=f[8], replay=rp)
+    ctx.note("shared-store strings: %d pairs (%d different contents in one bucket chain, %d equal contents)" % (len(pick), min(len(collide), n // 2), min(len(equal), n // 4)))
+
+
+# ------------------------------------------------------------------------------------------------ computed numbers vs literals
+NUM_PREDS = ["eqv?", "eqv?(swapped)", "equal?", "core-equal?", "hash", "fixnum?", "memv", "assv", "member", "=",
+             "table69:eqv?", "table69:equal?", "table69:default", "table69:=", "table125:eqv?", "table125:eqv-comparator",
+             "table125:default-comparator", "table125:=+hash", "case"]
+
+
+def arith_results(ctx, d, n_draws):
+    """every arithmetic operation with a bignum / ratio / flonum / exact-complex operand, operands chosen so that the exact result is
+    0, +-1, a small fixnum, a +-2^62 boundary value, an integer-valued ratio or complex: the result must be indistinguishable from
+    the literal for eqv?, equal?, hash, fixnum?, memv/assv/member, case, and as a key of eqv?/equal?/= tables."""
+    rng = ctx.rng
+    cases = []
+    targets = [0, 0, 1, -1, 2, -3, 7, 100, MAXFIX, MAXFIX - 1, -MAXFIX - 1, -MAXFIX]
+    for t in targets:
+        for _ in range(n_draws):
+            for e in small_routes_all(t, rng):
+                cases.append((e, str(t), True))
+    for t in (MAXFIX + 1, -MAXFIX - 2, 1 << 64, -(1 << 64)):
+        for _ in range(12 * n_draws):
+            cases.append((expr(("int", t), rng, {}), str(t), True))
+    for _ in range(40 * n_draws):
+        v = rng.choice([gen_rat, gen_cpx])(rng)
+        lit = fr_str(Fraction(v[1], v[2])) if v[0] == "rat" else cpx_str(Fraction(*v[1]), Fraction(*v[2]))
+        cases.append((number_expr(v, rng, {}), lit, True))
+    P70 = 1 << 70
+    flo = [("(* 0. %d)" % P70, "0."), ("(* %d 0.)" % P70, "0."), ("(* -0. %d)" % P70, "-0.0"), ("(* 0. %d)" % -P70, "-0.0"), ("(- (inexact %d) (inexact %d))" % (P70, P70), "0."),
+           ("(+ .5 .5)", "1."), ("(/ (inexact %d) (inexact %d))" % (P70, P70), "1."), ("(* 1/2 2.)", "1."), ("(+ 1/2 .5)", "1."), ("(- 3/2 .5)", "1."),
+           ("(* %d (expt 2. -70))" % P70, "1."), ("(inexact 1/2)", ".5"), ("(/ %d (expt 2. 71))" % P70, ".5"), ("(- (inexact %d) (expt 2. 70) 1.)" % P70, "-1."),
+           ("(inexact %d)" % (1 << 62), "4611686018427387904."), ("(* 2. %d)" % (1 << 61), "4611686018427387904."), ("(- (expt 2. 62))", "-4611686018427387904."),
+           ("(+ (inexact %d) 0.)" % (1 << 62), "4611686018427387904."), ("(truncate 1.5)", "1."), ("(round 2.5)", "2."), ("(* 1. (/ %d %d))" % (P70, P70 * 2), ".5"),
+           ("(exact 4611686018427387904.)", "4611686018427387904"), ("(exact -4611686018427387904.)", "-4611686018427387904"), ("(exact (expt 2. 62))", "4611686018427387904"),
+           ("(exact (- (expt 2. 62)))", "-4611686018427387904"), ("(exact 0.)", "0"), ("(exact -0.)", "0"), ("(exact 1.)", "1"), ("(exact (floor 2.5))", "2"),
+           ("(exact (expt 2. 70))", str(P70)), ("(exact .5)", "1/2"), ("(exact (- (expt 2. 62) 1024.))", str((1 << 62) - 1024)), ("(exact (* 1.5 (expt 2. 62)))", str(3 << 61)),
+           ("(round 7/2)", "4"), ("(round 5/2)", "2"), ("(truncate -7/2)", "-3"), ("(ceiling 7/2)", "4"), ("(floor -7/2)", "-4"),
+           ("(floor (/ %d 2))" % (2 * P70 + 1), str(P70)), ("(round (/ %d 2))" % ((1 << 63) - 1), str(1 << 62)), ("(truncate (/ %d 2))" % (-(1 << 63) - 1), str(-(1 << 62))),
+           ("(floor (/ %d 2))" % ((1 << 63) - 1), str(MAXFIX)), ("(numerator (/ %d %d))" % (6 * P70, 4 * P70), "3"), ("(denominator (/ %d %d))" % (6 * P70, 4 * P70), "2"),
+           ("(exact-integer-sqrt %d)" % (P70 * P70), None), ("(square (/ 1 %d))" % P70, "1/%d" % (P70 * P70)), ("(expt %d 1)" % P70, str(P70)), ("(expt 2 62)", str(1 << 62)),
+           ("(expt -2 62)", str(1 << 62)), ("(- (expt 2 62))", str(-(1 << 62))), ("(expt 2 61)", str(1 << 61)), ("(* %d %d)" % (1 << 31, 1 << 31), str(1 << 62)),
+           ("(* %d %d)" % (-(1 << 31), 1 << 31), str(-(1 << 62))), ("(quotient %d -1)" % (-(1 << 62)), str(1 << 62)), ("(abs %d)" % (-(1 << 62)), str(1 << 62)),
+           ("(exact-integer-sqrt-s %d)" % (1 << 124), None), ("(max 0 %d)" % -P70, "0"), ("(min 1 %d)" % P70, "1"), ("(string->number \"%d\" 16)" % 0, "0"),
+           ("(- (string->number \"%s\") %d)" % (P70, P70), "0"), ("(bit-and %d 1)" % (P70 + 1), "1") if False else ("(modulo %d 2)" % (P70 + 1), "1")]
+    for e, lit in flo:
+        if lit is not None:
+            cases.append((e, lit, len(lit) < 24))
+    seen, uniq = set(), []
+    for c in cases:
+        if c[0] not in seen:
+            seen.add(c[0])
+            uniq.append(c)
+    exprs = []
+    for e, lit, cs in uniq:
+        exprs.append("(let ((r %s)) (string-append (c15-num r %s) %s))" % (e, lit, '(case r ((%s) "1") (else "0"))' % lit if cs else '"1"'))
+    out = [unquote(x) for x in scm.run_cases(d, exprs, prelude_extra=PRELUDE, imports=IMPORTS)]
+    for (e, lit, cs), x, o in zip(uniq, exprs, out):
+        op = e[1:].split(" ")[0] if e.startswith("(") else "literal"
+        big_operand = True
+        ctx.count(1, key=x, nontrivial=big_operand)
+        rp = replay_scm(x)
+        if o is None or o.startswith(("ERR", "CRASH", "TIMEOUT")) or len(o) != len(NUM_PREDS):
+            ctx.violation("computed-number:%s:error" % op, input=e, literal=lit, expected="1" * len(NUM_PREDS), observed=o, replay=rp)
+            continue
+        ctx.cov["traces_validated_against_impl"] += 1
+        if o[9] != "1":
+            ctx.broken("generator:arith", "the route %s does not compute %s numerically (= is false): generator or arithmetic (C04) problem" % (e, lit))
+            continue
+        bad = [NUM_PREDS[i] for i, c in enumerate(o) if c != "1"]
+        if bad:
+            ctx.violation("computed-number:%s:%s" % (op, bad[0]), input=e, literal=lit, expected="the computed value is indistinguishable from the literal %s: all of %s" % (lit, NUM_PREDS),
+                          observed="failing: %s (answers %s)" % (", ".join(bad), o), replay=rp)
+    ctx.note("computed numbers: %d distinct (route, literal) cases, %d predicates each" % (len(uniq), len(NUM_PREDS)))
+
+
+# ------------------------------------------------------------------------------------------------ constructors choosing a default hash
+CI_CHARS = [0x61, 0x41, 0x62, 0x42, 0x7a, 0x5a, 0x30]
+
+
+def ctor_leaf(rng, flo=False):
+    g = [gen_int, gen_int, gen_rat, gen_str, gen_str, gen_bv, lambda r: ("char", r.choice(CHARS)), lambda r: ("imm", r.choice(list(IMMS)))]
+    if flo:
+        g += [gen_flo, gen_cpx]
+    return rng.choice(g)(rng)
+
+
+def ctor_value(rng, eqn):
+    if eqn == "eq":
+        return rng.choice([lambda r: ("int", r.choice([0, 1, -1, r.randrange(-1000, 1000), MAXFIX, -MAXFIX - 1])), lambda r: ("char", r.choice(CHARS)),
+                           lambda r: ("imm", r.choice(list(IMMS))), lambda r: ("sym", r.choice(["foo", "bar", "x", "a-long-symbol-name"]))])(rng)
+    if eqn == "eqv":
+        return rng.choice([gen_int, gen_int, gen_flo, gen_rat, gen_cpx, lambda r: ("int", r.choice([0, 1, -1, MAXFIX, -MAXFIX - 1])),
+                           lambda r: ("char", r.choice(CHARS)), lambda r: ("sym", r.choice(["foo", "bar"]))])(rng)
+    if eqn == "equal":
+        c = rng.random()
+        if c < 0.4:
+            return ctor_leaf(rng, True)
+        if c < 0.7:
+            return t_pylist([ctor_leaf(rng, True) for _ in range(rng.randrange(0, 4))])
+        if c < 0.85:
+            return ("vec", tuple(ctor_leaf(rng, True) for _ in range(rng.randrange(0, 4))))
+        return gen_val(rng, 2)
+    if eqn == "default":
+        return ctor_leaf(rng) if rng.random() < 0.7 else t_pylist([ctor_leaf(rng) for _ in range(rng.randrange(0, 3))])
+    if eqn == "=":
+        return rng.choice([gen_int, gen_rat, lambda r: ("int", r.choice([0, 1, -1, 2, MAXFIX, -MAXFIX - 1, MAXFIX + 1]))])(rng)
+    if eqn == "string=":
+        return gen_str(rng, 4)
+    if eqn == "string-ci":
+        return ("str", tuple(rng.choice(CI_CHARS) for _ in range(rng.choice([1, 2, 2, 3]))))
+    if eqn == "char=":
+        return ("char", rng.choice(CHARS))
+    if eqn == "char-ci":
+        return ("char", rng.choice(CI_CHARS))
+    leaf = lambda: rng.choice([gen_int, gen_rat, gen_str, lambda r: ("char", r.choice(CHARS))])(rng)
+    if eqn == "list":
+        return t_pylist([leaf() for _ in range(rng.randrange(0, 4))])
+    if eqn == "vector":
+        return ("vec", tuple(leaf() for _ in range(rng.randrange(0, 4))))
+    if eqn == "pair":
+        return ("pair", leaf(), leaf())
+    raise ValueError(eqn)
+
+
+def t_pylist(items):
+    tail = ("imm", "()")
+    for x in reversed(items):
+        tail = ("pair", x, tail)
+    return tail
+
+
+def ctor_equiv(eqn, a, b):
+    imm = a[0] in ("char", "imm", "sym") or (a[0] == "int" and is_fix(a[1])) or a == ("vec", ())
+    if eqn == "eq":
+        return a == b and imm
+    if eqn == "eqv":
+        return a == b and (imm or a[0] in ("int", "flo", "rat", "cpx"))
+    if eqn in ("string-ci", "char-ci"):
+        low = lambda v: tuple(c | 0x20 if 0x41 <= c <= 0x5a else c for c in (v[1] if v[0] == "str" else (v[1],)))
+        return low(a) == low(b)
+    return a == b
+
+
+def ctor_list():
+    """(api, equivalence, label, Scheme procedure from an association list of initial contents to a table)"""
+    L = []
+    f69 = lambda T: "(lambda (al) (c15-fill hash-table-set! %s al))" % T
+    f125 = lambda T: "(lambda (al) (c15-fill h125:hash-table-set! %s al))" % T
+    procs = (("eq", ["eq?"], [None, "hash-by-identity", "hash"]), ("eqv", ["eqv?"], [None, "hash"]), ("equal", ["equal?", "core-equal?"], [None, "hash"]),
+             ("string=", ["string=?"], [None, "hash", "string-hash"]), ("=", ["="], [None, "hash"]), ("char=", ["char=?"], [None, "hash"]))
+    for eqn, prs, hs in procs:
+        for pr in prs:
+            for h in hs:
+                for size in (["", " 100"] if h else [""]):
+                    a = pr + (" " + h if h else "") + size
+                    L.append(("69", eqn, "(make-hash-table %s)" % a, f69("(make-hash-table %s)" % a)))
+                    L.append(("125", eqn, "(h125:make-hash-table %s)" % a, f125("(h125:make-hash-table %s)" % a)))
+                    if not size:
+                        L.append(("69", eqn, "(alist->hash-table al %s)" % a, "(lambda (al) (alist->hash-table al %s))" % a))
+                        L.append(("125", eqn, "(h125:alist->hash-table al %s)" % a, "(lambda (al) (h125:alist->hash-table al %s))" % a))
+                        L.append(("69", eqn, "(hash-table-copy (make-hash-table %s))" % a, "(lambda (al) (hash-table-copy (c15-fill hash-table-set! (make-hash-table %s) al)))" % a))
+                        L.append(("125", eqn, "(h125:hash-table-copy (h125:make-hash-table %s) #t)" % a,
+                                  "(lambda (al) (h125:hash-table-copy (c15-fill h125:hash-table-set! (h125:make-hash-table %s) al) #t))" % a))
+                        L.append(("125", eqn, "(h125:hash-table-empty-copy (h125:make-hash-table %s))" % a,
+                                  "(lambda (al) (c15-fill h125:hash-table-set! (h125:hash-table-empty-copy (c15-fill h125:hash-table-set! (h125:make-hash-table %s) al)) al))" % a))
+    L.append(("69", "equal", "(make-hash-table)", f69("(make-hash-table)")))
+    L.append(("69", "equal", "(alist->hash-table al)", "(lambda (al) (alist->hash-table al))"))
+    cmps = [("(make-eq-comparator)", "eq"), ("eq-comparator", "eq"), ("(make-eqv-comparator)", "eqv"), ("eqv-comparator", "eqv"), ("(make-equal-comparator)", "equal"),
+            ("equal-comparator", "equal"), ("(make-default-comparator)", "default"), ("default-comparator", "default"), ("string-comparator", "string="),
+            ("string-ci-comparator", "string-ci"), ("char-comparator", "char="), ("char-ci-comparator", "char-ci"), ("real-comparator", "="),
+            ("list-comparator", "list"), ("vector-comparator", "vector"), ("(make-pair-comparator default-comparator default-comparator)", "pair")]
+    for c, eqn in cmps:
+        L.append(("125", eqn, "(h125:make-hash-table %s)" % c, f125("(h125:make-hash-table %s)" % c)))
+        L.append(("125", eqn, "(h125:make-hash-table %s 100)" % c, f125("(h125:make-hash-table %s 100)" % c)))
+        L.append(("125", eqn, "(h125:hash-table %s k v ...)" % c, "(lambda (al) (apply h125:hash-table %s (c15-flat al)))" % c))
+        L.append(("125", eqn, "(h125:hash-table-unfold ... %s)" % c, "(lambda (al) (h125:hash-table-unfold null? (lambda (s) (values (caar s) (cdar s))) cdr al %s))" % c))
+        L.append(("125", eqn, "(h125:alist->hash-table al %s)" % c, "(lambda (al) (h125:alist->hash-table al %s))" % c))
+        L.append(("125", eqn, "(h125:hash-table-copy (h125:make-hash-table %s) #t)" % c, "(lambda (al) (h125:hash-table-copy (c15-fill h125:hash-table-set! (h125:make-hash-table %s) al) #t))" % c))
+        L.append(("125", eqn, "(h125:hash-table-empty-copy (h125:make-hash-table %s))" % c,
+                  "(lambda (al) (c15-fill h125:hash-table-set! (h125:hash-table-empty-copy (c15-fill h125:hash-table-set! (h125:make-hash-table %s) al)) al))" % c))
+    return L
+
+
+def steps_differ(steps, msteps, cl):
+    """first difference between the dumps of the implementation and of the SPEC map: (kind, step, expected, observed) or None"""
+    for j, (s2, m2) in enumerate(zip(steps, msteps)):
+        ss, ms = s2.split("&"), m2.split("&")
+        if len(ss) != len(ms):
+            return ("tables", j, "%d tables" % len(ms), "%d tables" % len(ss))
+        for w, (s, m) in enumerate(zip(ss, ms)):
+            which = ("current table" if w == 0 else "OTHER table (original / copy not operated on)")
+            sz, nb, al, lk = s.split("/")
+            msz, mal, mlk = m.split("/")
+            if lk != mlk:
+                return ("lookup" if w == 0 else "copy-shares-state:lookup", j, "%s: lookups %s" % (which, mlk), "%s: lookups %s" % (which, lk))
+            if sz != msz:
+                return ("size" if w == 0 else "copy-shares-state:size", j, "%s: size %s" % (which, msz), "%s: size %s" % (which, sz))
+            ia = sorted((cl[int(x.split(":")[0])], x.split(":")[1]) for x in al.split(",") if x) if "-1" not in al else None
+            ma = sorted((cl[int(x.split(":")[0])], x.split(":")[1]) for x in mal.split(",") if x)
+            if ia != ma:
+                return ("alist" if w == 0 else "copy-shares-state:alist", j, "%s: alist %s" % (which, mal), "%s: alist %s" % (which, al))
+    if len(steps) != len(msteps):
+        return ("length", min(len(steps), len(msteps)), "%d steps" % len(msteps), "%d steps" % len(steps))
+    return None
+
+
+def ctor_histories(ctx, d, exe, C, rounds, frac):
+    """every way a (srfi 69) / (srfi 125) = (scheme hash-table) constructor chooses the hash function (default by equivalence procedure,
+    explicit, from a comparator), with keys that are FRESHLY COMPUTED for every set!/update!/delete!/ref/alist comparison (never the same
+    object twice: each key has three computation routes used in rotation), against the association-list SPEC under the equivalence."""
+    rng = ctx.rng
+    ctors = ctor_list()
+    exprs, mreq, meta = [], [], []
+    for rnd in range(rounds):
+        for (api, eqn, label, mk) in ctors:
+            if rnd == 0 and rng.random() >= frac:
+                continue
+            n = rng.choice([3, 5, 8, 12])
+            vals = []
+            tries = 0
+            while len(vals) < n and tries < 200:
+                tries += 1
+                v = rng.choice(vals) if vals and rng.random() < 0.25 else ctor_value(rng, eqn)
+                if has_nan(v):
+                    continue
+                vals.append(v)
+            cl, reps = [], []
+            for i, v in enumerate(vals):
+                for (j, w) in reps:
+                    if ctor_equiv(eqn, w, v):
+                        cl.append(j)
+                        break
+                else:
+                    reps.append((i, v))
+                    cl.append(i)
+            init_keys = [j for (j, _) in reps if rng.random() < 0.4][:4]
+            init = [(k, 500 + q) for q, k in enumerate(init_keys)]
+            nops = rng.choice([8, 20, 40]) if not ctx.thorough else rng.choice([20, 60, 150])
+            ops = gen_ops(rng, len(vals), nops, immutable_aside=(api == "125"))
+            routes = "(vector %s)" % " ".join("(vector %s)" % " ".join("(lambda () %s)" % expr(v, rng, C) for _ in range(3)) for v in vals)
+            e = "(c15-fresh %s %s %s '(%s) %s)" % ("c15-api125" if api == "125" else "c15-api69", mk, routes, " ".join("(%d . %d)" % kv for kv in init), ops_scheme(ops))
+            exprs.append(e)
+            mreq.append("mhist %s %s" % (",".join("%x" % c for c in cl), ops_model([("s", k, v) for k, v in init] + ops)))
+            meta.append((api, eqn, label, ops, len(init), cl))
+    out = [unquote(x) for x in scm.run_cases(d, exprs, prelude_extra=PRELUDE, imports=IMPORTS, chunk=60, timeout=900)]
+    mo = ctx.run_model(exe, mreq)
+    for (api, eqn, label, ops, ninit, cl), e, o, m in zip(meta, exprs, out, mo):
+        rp = replay_scm(e)
+        if o is None or o.startswith(("ERR", "CRASH", "TIMEOUT")):
+            ctx.count(1, key=e)
+            ctx.violation("table:ctor:%s:error" % label, input=e, equivalence=eqn, expected="a history dump", observed=o, replay=rp)
+            continue
+        steps, msteps = o.split("|"), m.split("|")[ninit:]
+        ctx.count(len(steps), key=e, nontrivial=True)
+        ctx.cov["traces_validated_against_impl"] += len(steps)
+        bad = steps_differ(steps, msteps, ["%x" % c for c in cl])
+        if bad:
+            ctx.violation("table:ctor:%s:%s" % (label, bad[0]), input=e, equivalence=eqn, failing_step=bad[1], op=str(ops[min(bad[1], len(ops) - 1)]),
+                          expected=bad[2] + "  (association list under %s, every key recomputed for every operation)" % eqn, observed=bad[3], replay=rp,
+                          history_prefix=ops_scheme(ops[:bad[1] + 1]))
+    ctx.note("constructor histories: %d histories over %d constructor forms, every key object freshly computed" % (len(exprs), len(ctors)))
+
+
 # ------------------------------------------------------------------------------------------------ K-outer B
 def gen_universe(rng, kind):
     """list of (value, identity) — values may repeat (equivalent but distinct objects) except immediates"""
@@ -1299,6 +1895,15 @@ def histories(ctx, d, exe, C, counts):
         else:
             mk = KINDS[kind][1]
         keys = "(vector %s)" % " ".join(expr(v, rng, C) for v in vals)
+        if kind in (2, 3) and rng.random() < 0.25:
+            # every key is a string inside ONE shared byte store (utf8->string!), same byte length, different offsets
+            L = rng.choice([1, 2, 2, 3])
+            store = bytes(rng.choice(b"abc" if L > 1 else b"abcdefghijk") for _ in range(rng.choice([6, 10, 14, 24])))
+            offs = list(range(len(store) - L + 1))
+            rng.shuffle(offs)
+            vals = [("str", tuple(store[o:o + L])) for o in offs]
+            keys = "(let ((bv (bytevector %s))) (vector %s))" % (" ".join(map(str, store)), " ".join("(utf8->string! bv %d %d)" % (o, o + L) for o in offs))
+            ops = gen_ops(rng, len(vals), nops, immutable_aside=api125)
         exprs.append("(c15-hist %s %s %s %s)" % ("c15-api125" if api125 else "c15-api69", mk, keys, ops_scheme(ops)))
         cls = classes(vals, kind)
         mreq.append("mhist %s %s" % (",".join("%x" % c for c in cls), ops_model(ops)))
